@@ -1,6 +1,8 @@
 (* Proof obligations over facts regenerated from /repo on every check (Generated/SourceFacts.v,
-   written by harness/cmd/facts).  Topic: status.  When an edit of the sources changes a fact, the
-   lemma below stops compiling; the checks of the properties that depend on this topic then report
+   written by harness/cmd/facts).  Topic: status.  The facts are semantic summaries (orders, literal
+   sets, capacity classes, parent classes of contexts, lock events per path), so a behaviour-
+   preserving rewrite regenerates the same facts; when an edit changes what the theorems rest on,
+   the lemma below stops compiling, the checks of the properties that depend on this topic report
    the broken obligation by name and search for a failing input. *)
 From Coq Require Import List String ZArith Bool.
 Import ListNotations.
@@ -8,10 +10,8 @@ Require Import Verif.Common.LockEv Verif.Generated.SourceFacts.
 Require Verif.Model.C12.
 Open Scope string_scope.
 
-Lemma default_status_ok : default_status_cond = "resp.StatusCode != http.StatusOK && resp.StatusCode != http.StatusCreated".
-Proof. reflexivity. Qed.
-
-(* the tie to the C12 model: a status is used iff it is one the regenerated condition lets through *)
+(* the statuses the default handler lets through, and the tie to the C12 model: a status is used
+   iff it is one of them *)
 Lemma status_accepted_ok : default_status_accepted = [200; 201]%Z.
 Proof. reflexivity. Qed.
 Lemma status_matches_model : forall code : Z,
